@@ -1,2 +1,248 @@
-use crate::Scenario;
-pub fn scenarios() -> Vec<Scenario> { vec![] }
+//! C16: use of the random source.  With the same source output key generation, DKG part one, repair
+//! part one, both refresh variants, signing-key generation and randomizer generation are
+//! reproducible bit for bit; with a different output every drawn value changes; within one call no
+//! two drawn values coincide (polynomial coefficients, proof-of-knowledge nonce, repair deltas).
+
+use std::collections::BTreeSet;
+
+use frost_core as fc;
+use frost_core::keys::dkg;
+use frost_core::keys::refresh;
+use frost_core::keys::repairable;
+use frost_core::keys::{self, IdentifierList};
+use serde_json::json;
+
+use crate::c19::scenario_batch_cancelling_errors;
+use crate::common::*;
+use crate::rng::TestRng;
+use crate::{scn, Scenario};
+
+pub fn scenarios() -> Vec<Scenario> {
+    vec![
+        scn!(scenario_dealer_randomness),
+        scn!(scenario_dkg_part1_randomness),
+        scn!(scenario_repair_randomness),
+        scn!(scenario_refresh_randomness),
+        scn!(scenario_randomizer_and_key_randomness),
+        scn!(scenario_batch_blinders),
+        // the observable consequence of equal blinders: errors that cancel are accepted
+        scn!(scenario_batch_cancelling_errors),
+    ]
+}
+
+fn all_distinct(items: &[Vec<u8>]) -> Option<(usize, usize)> {
+    for i in 0..items.len() {
+        for j in (i + 1)..items.len() {
+            if items.get(i) == items.get(j) {
+                return Some((i, j));
+            }
+        }
+    }
+    None
+}
+
+fn distinct_check(items: &[Vec<u8>], what: &str) -> Verdict {
+    match all_distinct(items) {
+        None => Ok(()),
+        Some((i, j)) => fail(
+            what,
+            "pairwise distinct values",
+            format!("values {i} and {j} coincide: {}", items.get(i).map(|x| hex(x)).unwrap_or_default()),
+        ),
+    }
+}
+
+fn disjoint_check(a: &[Vec<u8>], b: &[Vec<u8>], what: &str) -> Verdict {
+    let sa: BTreeSet<&Vec<u8>> = a.iter().collect();
+    match b.iter().find(|x| sa.contains(x)) {
+        None => Ok(()),
+        Some(x) => fail(what, "every value differs", format!("value {} occurs in both runs", hex(x))),
+    }
+}
+
+pub fn scenario_dealer_randomness<C: Suite>(rng: &mut TestRng, p: &Params, notes: &mut Notes) -> Verdict {
+    let ids = make_ids::<C>(&p.ids)?;
+    let seed = rng.u64();
+    notes.insert("stream_seed".into(), json!(seed.to_string()));
+    let run = |s: u64| keys::generate_with_dealer::<C, _>(p.n, p.t, IdentifierList::Custom(&ids), &mut TestRng::new(s));
+    let (s1, pk1) = need(run(seed), "generate_with_dealer")?;
+    let (s2, pk2) = need(run(seed), "generate_with_dealer")?;
+    check(s1 == s2 && pk1 == pk2, "generate_with_dealer is reproducible from the same random stream", "identical output", "different output")?;
+    let (s3, pk3) = need(run(seed ^ 1), "generate_with_dealer")?;
+    check(pk1.verifying_key() != pk3.verifying_key(), "another random stream gives another key", "different", "equal")?;
+    let c1 = match s1.values().next() {
+        Some(s) => need(s.commitment().serialize(), "serialize")?,
+        None => return skip("no shares"),
+    };
+    let c3 = match s3.values().next() {
+        Some(s) => need(s.commitment().serialize(), "serialize")?,
+        None => return skip("no shares"),
+    };
+    distinct_check(&c1, "dealer: key and polynomial coefficients are distinct draws (commitments pairwise distinct)")?;
+    disjoint_check(&c1, &c3, "dealer: with another random stream every coefficient changes")?;
+    // split(): the coefficients are new draws, unrelated to the given key
+    let sk = fc::SigningKey::<C>::new(rng);
+    let (sa, _) = need(keys::split::<C, _>(&sk, p.n, p.t, IdentifierList::Custom(&ids), &mut TestRng::new(seed)), "split")?;
+    let (sb, _) = need(keys::split::<C, _>(&sk, p.n, p.t, IdentifierList::Custom(&ids), &mut TestRng::new(seed ^ 2)), "split")?;
+    let (ca, cb) = match (sa.values().next(), sb.values().next()) {
+        (Some(a), Some(b)) => (need(a.commitment().serialize(), "serialize")?, need(b.commitment().serialize(), "serialize")?),
+        _ => return skip("no shares"),
+    };
+    distinct_check(&ca, "split: polynomial coefficients are distinct draws")?;
+    disjoint_check(ca.get(1..).unwrap_or(&[]), cb.get(1..).unwrap_or(&[]), "split: with another random stream every non-constant coefficient changes")
+}
+
+pub fn scenario_dkg_part1_randomness<C: Suite>(rng: &mut TestRng, p: &Params, notes: &mut Notes) -> Verdict {
+    let ids = make_ids::<C>(&p.ids)?;
+    let id = match ids.first() {
+        Some(i) => *i,
+        None => return skip("internal"),
+    };
+    let seed = rng.u64();
+    notes.insert("stream_seed".into(), json!(seed.to_string()));
+    let run = |s: u64| dkg::part1::<C, _>(id, p.n, p.t, TestRng::new(s));
+    let (sa, pa) = need(run(seed), "part1")?;
+    let (sb, pb) = need(run(seed), "part1")?;
+    check(sa == sb && pa == pb, "dkg::part1 is reproducible from the same random stream", "identical output", "different output")?;
+    let (_, pc) = need(run(seed ^ 1), "part1")?;
+    let ca = need(pa.commitment().serialize(), "serialize")?;
+    let cc = need(pc.commitment().serialize(), "serialize")?;
+    distinct_check(&ca, "dkg::part1: secret and coefficients are distinct draws")?;
+    disjoint_check(&ca, &cc, "dkg::part1: with another random stream every coefficient changes")?;
+    // the proof-of-knowledge nonce is one more independent draw: its commitment R differs from all coefficient commitments
+    let sig_a = need(pa.proof_of_knowledge().serialize(), "serialize")?;
+    let sig_c = need(pc.proof_of_knowledge().serialize(), "serialize")?;
+    let rlen = sig_a.len() - scalar_bytes::<C>(&zero::<C>()).len();
+    let (ra, rc) = (sig_a.get(..rlen).unwrap_or(&[]).to_vec(), sig_c.get(..rlen).unwrap_or(&[]).to_vec());
+    check(ra != rc, "dkg::part1: with another random stream the proof-of-knowledge nonce changes", "different R", "equal R")?;
+    let tail = |c: &Vec<u8>| c.get(c.len() - rlen.min(c.len())..).unwrap_or(&[]).to_vec();
+    check(
+        ca.iter().all(|c| tail(c) != ra),
+        "dkg::part1: the proof-of-knowledge nonce is a draw of its own (R differs from every coefficient commitment)",
+        "R not among the commitments",
+        "R equals a coefficient commitment",
+    )
+}
+
+pub fn scenario_repair_randomness<C: Suite>(rng: &mut TestRng, p: &Params, notes: &mut Notes) -> Verdict {
+    let keys = keygen::<C>(rng, p, false)?;
+    let helpers: Vec<Id<C>> = keys.ids.clone();
+    let target = need(Id::<C>::derive(b"participant under repair"), "derive")?;
+    if helpers.contains(&target) {
+        return skip("collision");
+    }
+    let me = match helpers.get(rng.below(helpers.len())) {
+        Some(i) => *i,
+        None => return skip("internal"),
+    };
+    let kp = match keys.key_packages.get(&me) {
+        Some(k) => k,
+        None => return skip("internal"),
+    };
+    let seed = rng.u64();
+    notes.insert("stream_seed".into(), json!(seed.to_string()));
+    let run = |s: u64| repairable::repair_share_part1::<C, _>(&helpers, kp, &mut TestRng::new(s), target);
+    let a = need(run(seed), "repair_share_part1")?;
+    let b = need(run(seed), "repair_share_part1")?;
+    check(a == b, "repair_share_part1 is reproducible from the same random stream", "identical deltas", "different deltas")?;
+    let c = need(run(seed ^ 1), "repair_share_part1")?;
+    let va: Vec<Vec<u8>> = a.values().map(|d| d.serialize()).collect();
+    let vc: Vec<Vec<u8>> = c.values().map(|d| d.serialize()).collect();
+    distinct_check(&va, "repair_share_part1: the blinding values are distinct draws")?;
+    disjoint_check(&va, &vc, "repair_share_part1: with another random stream every delta changes")
+}
+
+pub fn scenario_refresh_randomness<C: Suite>(rng: &mut TestRng, p: &Params, notes: &mut Notes) -> Verdict {
+    let keys = keygen::<C>(rng, p, false)?;
+    let seed = rng.u64();
+    notes.insert("stream_seed".into(), json!(seed.to_string()));
+    let run = |s: u64| refresh::compute_refreshing_shares::<C, _>(keys.pubkeys.clone(), &keys.ids, &mut TestRng::new(s));
+    let (a, pa) = need(run(seed), "compute_refreshing_shares")?;
+    let (b, pb) = need(run(seed), "compute_refreshing_shares")?;
+    check(a == b && pa == pb, "compute_refreshing_shares is reproducible from the same random stream", "identical output", "different output")?;
+    let (c, _) = need(run(seed ^ 1), "compute_refreshing_shares")?;
+    let (ca, cc) = match (a.first(), c.first()) {
+        (Some(x), Some(y)) => (need(x.commitment().serialize(), "serialize")?, need(y.commitment().serialize(), "serialize")?),
+        _ => return skip("no shares"),
+    };
+    distinct_check(&ca, "compute_refreshing_shares: refresh polynomial coefficients are distinct draws")?;
+    disjoint_check(&ca, &cc, "compute_refreshing_shares: with another random stream every coefficient changes")?;
+    // distributed variant
+    let id = match keys.ids.first() {
+        Some(i) => *i,
+        None => return skip("internal"),
+    };
+    let n = keys.ids.len() as u16;
+    let run = |s: u64| refresh::refresh_dkg_part1::<C, _>(id, n, p.t, TestRng::new(s));
+    let (sa, pa) = need(run(seed), "refresh_dkg_part1")?;
+    let (sb, pb) = need(run(seed), "refresh_dkg_part1")?;
+    check(sa == sb && pa == pb, "refresh_dkg_part1 is reproducible from the same random stream", "identical output", "different output")?;
+    let (_, pc) = need(run(seed ^ 1), "refresh_dkg_part1")?;
+    let ca = need(pa.commitment().serialize(), "serialize")?;
+    let cc = need(pc.commitment().serialize(), "serialize")?;
+    distinct_check(&ca, "refresh_dkg_part1: refresh polynomial coefficients are distinct draws")?;
+    disjoint_check(&ca, &cc, "refresh_dkg_part1: with another random stream every coefficient changes")
+}
+
+pub fn scenario_randomizer_and_key_randomness<C: Suite>(rng: &mut TestRng, p: &Params, notes: &mut Notes) -> Verdict {
+    let seed = rng.u64();
+    notes.insert("stream_seed".into(), json!(seed.to_string()));
+    let k1 = fc::SigningKey::<C>::new(&mut TestRng::new(seed));
+    let k2 = fc::SigningKey::<C>::new(&mut TestRng::new(seed));
+    let k3 = fc::SigningKey::<C>::new(&mut TestRng::new(seed ^ 1));
+    check(k1 == k2, "SigningKey::new is reproducible from the same random stream", "equal", "different")?;
+    check(k1 != k3, "SigningKey::new gives another key from another stream", "different", "equal")?;
+    // single-signer signatures: same stream, same signature; other stream, other nonce
+    let s1 = k1.sign(TestRng::new(seed), &p.message);
+    let s2 = k1.sign(TestRng::new(seed), &p.message);
+    let s3 = k1.sign(TestRng::new(seed ^ 1), &p.message);
+    check(s1 == s2, "SigningKey::sign is reproducible from the same random stream", "equal", "different")?;
+    check(s1 != s3, "SigningKey::sign uses a new nonce from another stream", "different", "equal")?;
+    // randomizer seeds
+    let (keys, _signers, sess) = setup_session::<C>(rng, p)?;
+    let vk = keys.pubkeys.verifying_key();
+    let a = need(frost_rerandomized::RandomizedParams::<C>::new_from_commitments(vk, &sess.commitments, TestRng::new(seed)), "new_from_commitments")?;
+    let b = need(frost_rerandomized::RandomizedParams::<C>::new_from_commitments(vk, &sess.commitments, TestRng::new(seed)), "new_from_commitments")?;
+    let c = need(frost_rerandomized::RandomizedParams::<C>::new_from_commitments(vk, &sess.commitments, TestRng::new(seed ^ 1)), "new_from_commitments")?;
+    check(a.0 == b.0 && a.1 == b.1, "RandomizedParams::new_from_commitments is reproducible from the same random stream", "equal", "different")?;
+    check(a.1 != c.1 && a.0.randomizer() != c.0.randomizer(), "another random stream gives another randomizer seed and randomizer", "different", "equal")?;
+    check(a.1.iter().any(|x| *x != 0), "the randomizer seed is drawn from the random source", "non-zero bytes", "all zero")
+}
+
+/// Batch verification draws one blinder per item from the supplied source.
+pub fn scenario_batch_blinders<C: Suite>(rng: &mut TestRng, _p: &Params, notes: &mut Notes) -> Verdict {
+    use frost_core::batch;
+    let sk = fc::SigningKey::<C>::new(rng);
+    let vk = fc::VerifyingKey::<C>::from(&sk);
+    let n = rng.range(2, 9);
+    notes.insert("batch_size".into(), json!(n));
+    let items: Vec<batch::Item<C>> = (0..n)
+        .filter_map(|i| {
+            let msg = format!("item {i}").into_bytes();
+            let sig = sk.sign(&mut *rng, &msg);
+            batch::Item::<C>::new(vk, sig, &msg).ok()
+        })
+        .collect();
+    if items.len() != n {
+        return skip("cannot build items");
+    }
+    let seed = rng.u64();
+    let drawn = |k: usize| -> (bool, u64) {
+        let mut src = TestRng::new(seed);
+        let mut v = batch::Verifier::<C>::new();
+        for it in items.iter().take(k) {
+            v.queue(it.clone());
+        }
+        (v.verify(&mut src).is_ok(), src.bytes_drawn)
+    };
+    let (ok1, b1) = drawn(1);
+    let (okn, bn) = drawn(n);
+    check(ok1 && okn, "batches of valid signatures verify", "Ok", "Err")?;
+    check(b1 > 0, "batch verification draws its blinder from the supplied random source", "> 0 bytes", "0 bytes")?;
+    check(
+        bn >= n as u64 * b1,
+        "batch verification obtains one blinder per item from distinct draws of the supplied random source",
+        format!("at least {} bytes for {n} items ({b1} bytes for one item)", n as u64 * b1),
+        format!("{bn} bytes"),
+    )
+}
